@@ -153,7 +153,8 @@ func cmdPairs(args []string) {
 		}
 	}
 	for _, s := range []string{"http://example.com/", "mailto:a@b.example", "urn:x:y", "//host.example/path", "http://[2001:db8::1]/", "http://192.0.2.1:8080/x", "http://user:pw@host.example/",
-		"http://host_underscore.example/", "ftp://", "http:///nohost", "HTTP://UPPER.EXAMPLE/", "http://ex ample.com/", "http://example.com/\xc3\xa9", "relative/path", "", "http://localhost/", "ldap://[::1]/"} {
+		"http://host_underscore.example/", "ftp://", "http:///nohost", "HTTP://UPPER.EXAMPLE/", "http://ex ample.com/", "http://example.com/\xc3\xa9", "relative/path", "", "http://localhost/", "ldap://[::1]/",
+		"ftp://anonymous@", "http://user:secret@", "http://user@?x=1", "http://@", "http://@/path", "http://:80/", "http://user@:80", "scheme:", "http:?q", "http:#f", "//", "///", "mailto:", "http://%41.example/", "http://a%zz.example/"} {
 		b := forge.GN(forge.GNURI, []byte(s)).Bytes()
 		if !vocabSeen[string(b)] {
 			vocabSeen[string(b)] = true
@@ -168,7 +169,10 @@ func cmdPairs(args []string) {
 		}
 	}
 	for _, s := range []string{" leading.example.com", "trailing.example.com ", "", "a..b.example.com", "caf\xc3\xa9.example.com", "x_y.example.com", "_a.b.example.com", "-a.example.com", "a-.example.com",
-		strings.Repeat("l", 64) + ".example.com", "ab--cd.example.com"} {
+		strings.Repeat("l", 64) + ".example.com", "ab--cd.example.com",
+		// labels whose length differs in bytes and in characters, on both sides of 63
+		strings.Repeat("\xc3\xa9", 40) + ".example.com", strings.Repeat("\xe4\xb8\xad", 22) + ".example.com", strings.Repeat("\xc3\xa9", 31) + "a.example.com", strings.Repeat("\xc3\xa9", 32) + ".example.com",
+		strings.Repeat("l", 63) + ".example.com", strings.Repeat("l", 62) + "\xc3\xa9.example.com"} {
 		b := forge.GN(forge.GNDNS, []byte(s)).Bytes()
 		if !vocabSeen[string(b)] {
 			vocabSeen[string(b)] = true
